@@ -113,11 +113,9 @@ func (h *invocationResponseHandler) ServeHTTP(writer http.ResponseWriter, reques
 		case *interop.ErrTruncatedResponse:
 			// in the buffered case nothing has reached the invoker: hand it a platform error instead of an empty success
 			// (in DirectInvoke case the truncated response is already sent back to the caller and this is refused)
-			_ = server.SendErrorResponse(invokeID, &interop.ErrorInvokeResponse{
-				Headers:       interop.InvokeResponseHeaders{ContentType: request.Header.Get(contentTypeHeader)},
-				FunctionError: interop.FunctionError{Type: fatalerror.TruncatedResponse},
-				Payload:       []byte{},
-			})
+			// with a JSON body naming the fault: if the body broke off because the runtime died, this answer reaches the
+			// invoker before the exit event does and is the only one it gets
+			_ = server.SendErrorResponse(invokeID, interop.GetErrorResponseWithFormattedErrorMessage(fatalerror.TruncatedResponse, err, invokeID))
 
 			if err := runtime.ResponseSent(); err != nil {
 				log.Panic(err)
